@@ -147,6 +147,15 @@ func c15Run(w *core.W, q *dns.Msg, envs [][]*model.Rec, tsig bool, f c15Fault, r
 		if f.kind == "rcode" && i == f.at {
 			m.Bits |= uint16(rcodeAt)
 		}
+		if f.kind == "rcode-noquestion" && i == f.at {
+			// an error answer without a question section (a bare REFUSED/SERVFAIL header, or a later
+			// envelope of a sender that leaves the question out, RFC 5936 s.2.2.2), with or without records
+			m.Bits |= uint16(rcodeAt)
+			m.Q = nil
+			if rcodeAt != dns.RcodeServerFailure {
+				m.An, m.Ar = nil, nil
+			}
+		}
 		if f.kind == "id" && i == f.at {
 			m.ID = id ^ 0x5555
 		}
@@ -182,6 +191,14 @@ func c15Run(w *core.W, q *dns.Msg, envs [][]*model.Rec, tsig bool, f c15Fault, r
 				_ = mac
 			}
 			prevMAC = mac
+		}
+		if f.kind == "append-after-tsig" && i == f.at && tsig {
+			// complete records appended behind the TSIG record, ARCOUNT raised to match: the message is
+			// not the one that was signed (the TSIG is not its last record, its counts differ)
+			wire = append([]byte(nil), wire...)
+			extra := &model.Rec{Owner: model.Name{[]byte("injected"), []byte("example")}, Type: 16, Class: 1, TTL: 60, L: model.Layouts[16], Vals: []any{[][]byte{[]byte("not part of the zone")}}}
+			wire = append(wire, extra.Wire()...)
+			binary.BigEndian.PutUint16(wire[10:], binary.BigEndian.Uint16(wire[10:])+1)
 		}
 		if f.kind == "idwire" && i == f.at {
 			// the ID in the header is changed on the wire, after signing: the TSIG (whose original ID
@@ -763,9 +780,9 @@ func c15Case(w *core.W, j int) {
 	}
 	w.Count("compositions", len(comps))
 	// faults
-	faults := []string{"first-not-soa", "rcode", "id"}
+	faults := []string{"first-not-soa", "rcode", "id", "rcode-noquestion"}
 	if tsig {
-		faults = append(faults, "alter", "reorder", "unsign", "wrongkey", "emptymac", "idwire")
+		faults = append(faults, "alter", "reorder", "unsign", "wrongkey", "emptymac", "idwire", "append-after-tsig")
 	}
 	for _, c := range []uint64{comps[0], comps[len(comps)-1], comps[len(comps)/2]} {
 		ne := len(compose(s.recs, c))
